@@ -13,6 +13,9 @@ package main
 //                    non-empty, unset and nested targets; negative / fractional / huge / NaN indices, read
 //                    and write
 //   printf-width     widths 65535 / 65536 / 65537, negative, leading zero, %s %f %v; width 4000 works
+//   fresh-array-index  the first indexed assignment to an unset variable / missing member chain / new member of
+//                    the record at every magnitude beyond the fill limit (refused, nothing allocated) and below it
+//   printf-width-digits  width texts of 19-25 digits: multiples of 2^64, 2^32, 2^16 plus a small offset, leading zeros
 //   json-nesting     arrays / objects / mixed nested 9 999 / 10 000 / 10 001 deep (thorough: all; quick: one
 //                    pair), also as a later value of a stream (prior output kept)
 //
@@ -20,7 +23,10 @@ package main
 
 import (
 	"fmt"
+	"math"
+	"math/big"
 	"math/rand"
+	"strconv"
 	"strings"
 )
 
@@ -497,6 +503,290 @@ func c20Width(r *rand.Rand, tier string, emit func(Case)) {
 	c20Emit(emit, prog, nil, "runtime", c20Exact("    a|"), "printf output is emitted only when the whole format succeeds")
 }
 
+// ---------------------------------------------------------------- first indexed assignment to something that is not an array yet
+
+// an index as it is written in the program, and the float it evaluates to
+type c20Idx struct {
+	pre  string // statement before the assignment (sets i), or ""
+	expr string
+	f    float64
+}
+
+// c20IdxOutcome: what an assignment at index f does on a fresh (empty) array. The
+// evaluator converts the float with int(): truncation towards zero, and the
+// out-of-range value (NaN, |f| >= 2^63) is the most negative int on amd64.
+// fits: the array is filled up to the index (length = index + 1); else refused.
+func c20IdxOutcome(f float64) (fits bool, length int) {
+	if math.IsNaN(f) || math.Abs(f) >= 9223372036854775808.0 {
+		return false, 0
+	}
+	t := int64(f)
+	if t < 0 || t > 1024*1024 {
+		return false, 0
+	}
+	return true, int(t) + 1
+}
+
+// c20BigIndices: magnitudes beyond the fill limit as decimal literals (exact)
+func c20BigIndices() []string {
+	pow := func(b, e int64) *big.Int { return new(big.Int).Exp(big.NewInt(b), big.NewInt(e), nil) }
+	add := func(x *big.Int, d int64) *big.Int { return new(big.Int).Add(x, big.NewInt(d)) }
+	var out []string
+	for _, x := range []*big.Int{
+		add(pow(2, 20), 1), add(pow(2, 20), 2), pow(2, 21), big.NewInt(2000000), pow(10, 7), add(pow(2, 24), 1), pow(10, 8), pow(10, 9), add(pow(2, 31), -1), pow(2, 31), add(pow(2, 32), -1), pow(2, 32), add(pow(2, 32), 1), add(pow(2, 32), 7),
+		pow(10, 10), pow(10, 11), pow(10, 12), pow(2, 40), pow(2, 45), add(pow(2, 47), -1), pow(2, 48), pow(10, 15), add(pow(2, 53), -1), pow(2, 53), add(pow(2, 53), 1), pow(10, 17), pow(10, 18), pow(2, 62), add(pow(2, 63), -1025), add(pow(2, 63), -1), pow(2, 63),
+		add(pow(2, 63), 1), add(pow(2, 63), 2049), add(pow(2, 64), -1), pow(2, 64), add(pow(2, 64), 1), add(pow(2, 64), 5), add(pow(2, 64), 4097), pow(10, 19), pow(10, 20), pow(2, 70), pow(10, 30), pow(10, 300),
+	} {
+		out = append(out, x.String())
+	}
+	return out
+}
+
+type c20Fresh struct {
+	name    string
+	funcs   string
+	setup   string
+	lhs     string // %s = the index expression
+	lenExpr string
+	doc     string // non-empty: the assignment happens in a pattern rule over this document
+}
+
+var c20FreshTargets = []c20Fresh{
+	{"unset variable", "", "", "u[%s]", "u.length()", ""},
+	{"element of an unset variable", "", "", "u[0][%s]", "u[0].length()", ""},
+	{"missing member chain of an unset variable", "", "", "a.b[0][%s]", "a.b[0].length()", ""},
+	{"missing member of an object", "", "o = {}", "o.list[%s]", "o.list.length()", ""},
+	{"missing chain below an existing member", "", "o = {k: {}}", "o.k.m[2][%s]", "o.k.m[2].length()", ""},
+	{"missing element of an existing array", "", "a = [1]", "a[1][%s]", "a[1].length()", ""},
+	{"index in the middle, then a member", "", "", "u[%s].k", "u.length()", ""},
+	{"index in the middle, then an index", "", "", "u[%s][0]", "u.length()", ""},
+	{"missing member chain, index in the middle", "", "o = {}", "o.p.q[%s][1].r", "o.p.q.length()", ""},
+	{"new member of the record", "", "", "$.new[%s]", "$.new.length()", `[{"x":1}]`},
+	{"new chain of the record", "", "", "$.x.deeper[0][%s]", "$.x.deeper[0].length()", `[{"x":{}}]`},
+	{"unset variable in a rule", "", "", "perrec[%s]", "perrec.length()", `[[1]]`},
+	{"unset parameter", "function s(p, i) { p[i] = 1\n return p.length() }\n", "", "", "", ""},
+	{"binding of a missing member", "", "o = {}", "", "", ""},
+}
+
+func c20FreshArray(r *rand.Rand, tier string, emit func(Case)) {
+	one := func(t c20Fresh, ix c20Idx, op string) {
+		fits, length := c20IdxOutcome(ix.f)
+		var prog string
+		pre := ""
+		if ix.pre != "" {
+			pre = "  " + ix.pre + "\n"
+		}
+		switch {
+		case t.name == "unset parameter":
+			prog = t.funcs + "BEGIN {\n  print \"start\"\n" + pre + "  print \"len\", s(u, " + ix.expr + ")\n}\n"
+		case t.name == "binding of a missing member":
+			prog = "BEGIN {\n  o = {}\n  print \"start\"\n" + pre + "  match (o.list) { p => { p[" + ix.expr + "] " + op + " } }\n  print \"len\", o.list.length()\n}\n"
+		default:
+			lhs := fmt.Sprintf(t.lhs, ix.expr)
+			asg := lhs + " " + op
+			if op == "++" || op == "--" {
+				asg = lhs + op
+			}
+			open, setup := "BEGIN {\n", ""
+			if t.doc != "" {
+				open = "{\n"
+			}
+			if t.setup != "" {
+				setup = "  " + t.setup + "\n"
+			}
+			prog = open + setup + "  print \"start\"\n" + pre + "  " + asg + "\n  print \"len\", " + t.lenExpr + "\n}\n"
+		}
+		var files []File
+		if t.doc != "" {
+			files = []File{{Name: "in.json", Data: []byte(t.doc)}}
+		}
+		probe := fmt.Sprintf("first indexed assignment to %s at index %s (= %v)", t.name, ix.expr, ix.f)
+		class, want := "runtime", "start\n"
+		if fits {
+			class, want = "ok", fmt.Sprintf("start\nlen %d\n", length)
+		}
+		emit(Case{Req: RunReq(prog, nil, files, false), Fields: []string{"class", "out"},
+			Meta:   metaProg(prog, "probe", probe, "row", t.name, "col", map[bool]string{true: "fits", false: "refused"}[fits]),
+			Oracle: c20Oracle(class, c20Exact(want)), NonTrivial: func(i Resp) bool { return i["class"] == class }})
+	}
+	lit := func(digits string, neg bool, frac string) c20Idx {
+		f, _ := strconv.ParseFloat(digits+frac, 64)
+		e := digits + frac
+		if neg {
+			f, e = -f, "-"+e
+		}
+		return c20Idx{"", e, f}
+	}
+	viaVar := func(ix c20Idx) c20Idx { return c20Idx{"i = " + ix.expr, "i", ix.f} }
+	ops := []string{"= 1", "= 1", "= 1", "+= 1", "-= 2", "*= 2", "++", "--"}
+	bigs := c20BigIndices()
+	for ti, t := range c20FreshTargets {
+		// beyond the limit: refused whatever the magnitude, sign and fraction
+		for bi, d := range bigs {
+			if tier != "thorough" && (bi+ti)%3 != 0 && !chance(r, 0.15) {
+				continue
+			}
+			ix := lit(d, false, "")
+			if chance(r, 0.3) {
+				ix = viaVar(ix)
+			}
+			one(t, ix, pick(r, ops))
+			if chance(r, 0.5) || tier == "thorough" {
+				one(t, lit(d, true, ""), pick(r, ops))
+			}
+			if len(d) < 300 && (chance(r, 0.5) || tier == "thorough") {
+				one(t, lit(d, chance(r, 0.3), pick(r, []string{".5", ".25", ".999", ".0"})), pick(r, ops))
+			}
+		}
+		// values that only num() produces
+		for _, n := range []struct {
+			text string
+			f    float64
+		}{{"1e300", 1e300}, {"-1e300", -1e300}, {"1e19", 1e19}, {"9.3e18", 9.3e18}, {"1.8446744073709552e19", 1.8446744073709552e19}, {"inf", math.Inf(1)}, {"-inf", math.Inf(-1)}, {"nan", math.NaN()}, {"1048577.5", 1048577.5}, {"1e7", 1e7}, {"1e11", 1e11}, {"2e12", 2e12}} {
+			if tier != "thorough" && !chance(r, 0.5) {
+				continue
+			}
+			one(t, c20Idx{"", "num(\"" + n.text + "\")", n.f}, pick(r, ops))
+		}
+		// computed at run time
+		one(t, c20Idx{"", "2 * 524288 + 1", 1048577}, "= 1")
+		one(t, c20Idx{"k = 1000000", "k * k", 1e12}, pick(r, ops))
+		one(t, c20Idx{"", "0 - 1", -1}, pick(r, ops))
+		// within the limit: the array is created and filled
+		for _, ix := range []c20Idx{lit("0", false, ""), lit("1", false, ""), lit("5", false, ".9"), lit("0", true, ".5"), lit("0", false, ".999"), viaVar(lit("1000", false, "")), lit(fmt.Sprint(2+r.Intn(5000)), false, ""),
+			lit("1", true, ""), lit("2", true, ".5"), lit("1", true, ".0")} {
+			one(t, ix, pick(r, ops))
+		}
+		// at the limit: a million cells, one target in quick
+		if tier == "thorough" || ti == 2 {
+			one(t, lit("1048576", false, ""), "= 1")
+			one(t, lit("1048576", false, ".75"), "= 1")
+		}
+		if tier == "thorough" {
+			one(t, lit("1048575", false, ""), "+= 1")
+		}
+	}
+}
+
+// ---------------------------------------------------------------- printf widths with many digits
+
+// c20WidthCase: the width text spec (an optional '-', then digits) is worth the exact
+// integer its digits denote, however many there are: beyond +-65536 it is refused
+// with the prior output kept, else it pads.
+func c20WidthCase(emit func(Case), spec, verb, argText, shown, probe string) {
+	neg := strings.HasPrefix(spec, "-")
+	digits := strings.TrimPrefix(spec, "-")
+	v, ok := new(big.Int).SetString(digits, 10)
+	prog := fmt.Sprintf("BEGIN { print \"start\"; printf(\"<%%%s%s>\", %s); print \"\"; print \"after\" }", spec, verb, argText)
+	if !ok || v.Cmp(big.NewInt(65536)) > 0 {
+		c20Emit(emit, prog, nil, "runtime", c20Exact("start\n"), probe)
+		return
+	}
+	w := int(v.Int64())
+	pad := " "
+	if !neg && digits[0] == '0' {
+		pad = "0"
+	}
+	body := shown
+	if len(body) < w {
+		if neg {
+			body = body + strings.Repeat(pad, w-len(body))
+		} else {
+			body = strings.Repeat(pad, w-len(body)) + body
+		}
+	}
+	c20Emit(emit, prog, nil, "ok", c20Exact("start\n<"+body+">\nafter\n"), probe)
+}
+
+func c20WidthDigits(r *rand.Rand, tier string, emit func(Case)) {
+	type arg struct{ verb, text, shown string }
+	args := []arg{{"s", `"ab"`, "ab"}, {"f", "2.5", "2.5"}, {"v", "[1]", "[1]"}, {"s", `""`, ""}}
+	pow := func(b, e int64) *big.Int { return new(big.Int).Exp(big.NewInt(b), big.NewInt(e), nil) }
+	add := func(x *big.Int, d int64) *big.Int { return new(big.Int).Add(x, big.NewInt(d)) }
+	mul := func(x *big.Int, m int64) *big.Int { return new(big.Int).Mul(x, big.NewInt(m)) }
+	send := func(v *big.Int, probe string) {
+		a := pick(r, args)
+		spec := v.String()
+		switch r.Intn(6) {
+		case 0:
+			spec = "-" + spec
+		case 1:
+			spec = "0" + spec
+		case 2:
+			spec = strings.Repeat("0", 1+r.Intn(6)) + spec
+		case 3:
+			spec = "-" + strings.Repeat("0", 1+r.Intn(3)) + spec
+		}
+		c20WidthCase(emit, spec, a.verb, a.text, a.shown, probe+": "+spec)
+	}
+	// the offsets at which a wrapped value would land inside the accepted window
+	ks := []int64{0, 1, 2, 3, 5, 8, 10, 16, 100, 255, 256, 1000, 4000, 32767, 32768, 65535, 65536, 65537, 65546, 100000}
+	for i, n := 0, tierN(tier, 12, 200); i < n; i++ {
+		ks = append(ks, r.Int63n(65537))
+	}
+	// a value that fits no int64: 2^64 * m +- k (wraps to +-k in 64 bits), 2^63 +- k
+	for _, k := range ks {
+		for _, m := range []int64{1, 1, 2, 3, 10, 54210, 542101} { // 2^64 * 542101 has 25 digits
+			if m != 1 && tier != "thorough" && !chance(r, 0.2) {
+				continue
+			}
+			send(add(mul(pow(2, 64), m), k), fmt.Sprintf("width 2^64*%d+%d", m, k))
+			send(add(mul(pow(2, 64), m), -k), fmt.Sprintf("width 2^64*%d-%d", m, k))
+		}
+		if tier == "thorough" || chance(r, 0.3) {
+			send(add(pow(2, 63), k), fmt.Sprintf("width 2^63+%d", k))
+			send(add(pow(2, 63), -k), fmt.Sprintf("width 2^63-%d", k))
+			// narrower wraps: 32 and 16 bits
+			send(add(pow(2, 32), k), fmt.Sprintf("width 2^32+%d", k))
+			send(add(pow(2, 32), -k-1), fmt.Sprintf("width 2^32-%d", k+1))
+			send(add(mul(pow(2, 32), 1+r.Int63n(2000000000)), k), fmt.Sprintf("width 2^32*m+%d", k))
+			send(add(pow(2, 31), k), fmt.Sprintf("width 2^31+%d", k))
+			send(add(mul(pow(2, 16), 1+r.Int63n(60000)), k+1), fmt.Sprintf("width 2^16*m+%d", k+1))
+		}
+	}
+	// the witnesses of the seeded change, every verb
+	for _, a := range args {
+		for _, spec := range []string{"18446744073709551626", "-18446744073709551621", "018446744073709551624", "18446744073709551616", "-18446744073709551616", "36893488147419103242",
+			"100000000000000000005", "10000000000000000005", "9223372036854775807", "9223372036854775808", "9223372036854775809", "-9223372036854775808", "-9223372036854775809", "-9223372036854775807"} {
+			c20WidthCase(emit, spec, a.verb, a.text, a.shown, "width "+spec)
+		}
+		// all nines, and 1 followed by zeros and a small tail, 19 to 25 digits
+		for d := 19; d <= 25; d++ {
+			c20WidthCase(emit, strings.Repeat("9", d), a.verb, a.text, a.shown, fmt.Sprintf("width of %d nines", d))
+			c20WidthCase(emit, "-"+strings.Repeat("9", d), a.verb, a.text, a.shown, fmt.Sprintf("width of %d nines, negative", d))
+			c20WidthCase(emit, "1"+strings.Repeat("0", d-2)+"5", a.verb, a.text, a.shown, fmt.Sprintf("width 10^%d+5", d-1))
+			// many digits, small value: leading zeros only. it pads (with zeros)
+			small := fmt.Sprint(r.Intn(40))
+			c20WidthCase(emit, strings.Repeat("0", d-len(small))+small, a.verb, a.text, a.shown, fmt.Sprintf("width %s written with %d digits", small, d))
+			c20WidthCase(emit, "-"+strings.Repeat("0", d-len(small))+small, a.verb, a.text, a.shown, fmt.Sprintf("width -%s written with %d digits", small, d))
+			c20WidthCase(emit, strings.Repeat("0", d-5)+"65536", a.verb, a.text, a.shown, fmt.Sprintf("width 65536 written with %d digits", d))
+			c20WidthCase(emit, strings.Repeat("0", d-5)+"65537", a.verb, a.text, a.shown, fmt.Sprintf("width 65537 written with %d digits", d))
+		}
+	}
+	// random digit strings of 19-25 digits (and a few longer)
+	for i, n := 0, tierN(tier, 150, 3000); i < n; i++ {
+		d := 19 + r.Intn(7)
+		if chance(r, 0.1) {
+			d = 26 + r.Intn(40)
+		}
+		b := make([]byte, d)
+		for j := range b {
+			b[j] = byte('0' + r.Intn(10))
+		}
+		if chance(r, 0.3) {
+			for j := 0; j < d-1-r.Intn(6) && j < d; j++ {
+				b[j] = '0'
+			}
+		}
+		a := pick(r, args)
+		spec := string(b)
+		if chance(r, 0.3) {
+			spec = "-" + spec
+		}
+		c20WidthCase(emit, spec, a.verb, a.text, a.shown, "random width of many digits")
+	}
+}
+
 // ---------------------------------------------------------------- JSON nesting
 
 func c20Nest(kind string, d int) string {
@@ -580,6 +870,16 @@ func init() {
 		Name: "printf-width", Prop: "C20",
 		Rule: "printf %s %f %v with widths 0..4000, 65535, 65536, 65537, 65538, 1e5, 1e8, negative and with a leading zero; malformed and 20-digit widths; oracle: exact padded output up to the limit, runtime error with prior output kept beyond it",
 		Gen:  c20Width,
+	})
+	register(Family{
+		Name: "fresh-array-index", Prop: "C20",
+		Rule: "the first indexed assignment (=, +=, -=, *=, ++, --) to something that is NOT an array yet -- an unset variable, its element, a missing member chain (a.b[0][N]), a missing member of an object / below an existing member / past the end of an array, the index in the middle of the chain (u[N].k, u[N][0]), $.new[N] and $.x.deeper[0][N] in a rule, an unset parameter, the binding of a missing member -- at 43 magnitudes beyond the fill limit (2^20+1, 2^20+2, 2^21, 10^7 .. 10^12, 2^31, 2^32 and neighbours, 2^40, 2^45, 2^47-1, 2^48, 2^53 and neighbours, 10^15 .. 10^18, 2^62, 2^63 and neighbours, 2^64 and neighbours, 10^19, 10^20, 2^70, 10^30, 10^300), negated, with a fraction, through a variable, as num(\"1e300\") / inf / nan, computed; small, negative-fraction and random indices below the limit and 2^20 itself; oracle: the array gets length index+1 when 0 <= trunc(index) <= 2^20, else a runtime error with the prior output kept (never a panic / out of memory: the clean implementation allocates nothing for a refused index)",
+		Gen:  c20FreshArray,
+	})
+	register(Family{
+		Name: "printf-width-digits", Prop: "C20",
+		Rule: "printf %s %f %v with width texts of 19-25 (random: up to 65) digits: 2^64*m +- k and 2^63 +- k for k in 0..65536 sampled (m up to 542101: 25 digits), 2^32*m +- k, 2^31+k, 2^16*m+k, all nines, 10^d+5, the seeded witnesses, negative, with leading zeros, small values and 65536 / 65537 written with 19-25 digits (leading zeros: these pad), random digit strings; oracle: the exact integer value of the digits decides -- beyond +-65536 a runtime error with no output of the printf and the prior output kept, else the exact padded output",
+		Gen:  c20WidthDigits,
 	})
 	register(Family{
 		Name: "json-nesting", Prop: "C20",
